@@ -19,7 +19,9 @@ TheSchema == [
                              l |-> L(N("Int")), ln |-> L(NN(N("Int"))), lo |-> L(N("Obj")), ll |-> L(L(NN(N("Int")))), lnn |-> NN(L(NN(N("Int")))),
                              e |-> N("En"), s |-> N("String"), f |-> N("Float"), id |-> N("ID")], {}, {}, {}),
     Mutation |-> Obj("object", [m1 |-> N("Int"), m2 |-> NN(N("Int"))], {}, {}, {}),
-    Obj |-> Obj("object", [x |-> N("Int"), y |-> NN(N("Int")), o |-> N("Obj")], {"Iface"}, {}, {}),
+    Obj |-> Obj("object", [x |-> N("Int"), y |-> NN(N("Int")), o |-> N("Obj")], {"Iface", "OnlyObj"}, {}, {}),
+    OnlyObj |-> Obj("interface", [y |-> NN(N("Int"))], {}, {}, {}),
+    JustOther |-> Obj("union", NoF, {}, {"Other"}, {}),
     Other |-> Obj("object", [x |-> N("Int"), z |-> N("Int")], {"Iface"}, {}, {}),
     Iface |-> Obj("interface", [x |-> N("Int")], {}, {}, {}),
     Uni |-> Obj("union", NoF, {}, {"Obj", "Other"}, {}),
@@ -36,7 +38,8 @@ Lf(name) == F(name, name, <<>>)
 TheFragments == [
   F1 |-> [on |-> "Query", sels |-> <<Lf("a"), F("o", "o", <<Sp("G")>>)>>],
   G  |-> [on |-> "Obj", sels |-> <<Lf("x")>>],
-  H  |-> [on |-> "Iface", sels |-> <<Lf("x")>>] ]
+  H  |-> [on |-> "Iface", sels |-> <<Lf("x")>>],
+  K  |-> [on |-> "JustOther", sels |-> <<Lf("__typename"), In("Other", <<Lf("z")>>)>>] ]
 
 Op(kind, sels, vary) == [kind |-> kind, sels |-> sels, vary |-> vary]
 Ops == <<
@@ -59,7 +62,10 @@ Ops == <<
   Op("query", <<Lf("b"), F("on", "on", <<Lf("y")>>), Lf("a")>>, <<<<"Query", "b">>, <<"Query", "on">>, <<"Obj", "y">>>>),
   Op("query", <<Lf("__typename"), F("o", "o", <<Lf("__typename")>>)>>, <<<<"Query", "o">>>>),
   Op("query", <<F("lo", "lo", <<F("o", "o", <<Lf("y")>>)>>)>>, <<<<"Query", "lo">>, <<"Obj", "o">>, <<"Obj", "y">>>>),
-  Op("query", <<F("i", "i", <<Sp("H")>>), F("u", "u", <<Sp("H"), Sp("G")>>)>>, <<<<"Query", "i">>, <<"Query", "u">>, <<"Other", "x">>>>)
+  Op("query", <<F("i", "i", <<Sp("H")>>), F("u", "u", <<Sp("H"), Sp("G")>>)>>, <<<<"Query", "i">>, <<"Query", "u">>, <<"Other", "x">>>>),
+  \* abstract type conditions that apply to one possible type only
+  Op("query", <<F("i", "i", <<In("OnlyObj", <<Lf("y")>>), In("JustOther", <<F("tn", "__typename", <<>>), In("Other", <<Lf("z")>>)>>), Lf("x")>>)>>, <<<<"Query", "i">>, <<"Obj", "y">>>>),
+  Op("query", <<F("u", "u", <<In("OnlyObj", <<F("k", "y", <<>>)>>), Sp("K"), In("Iface", <<Lf("x")>>)>>)>>, <<<<"Query", "u">>, <<"Other", "x">>>>)
 >>
 
 I1 == <<"int", 1>>
